@@ -13,12 +13,14 @@ def add(pid, text, technique, ref, engine="jx2smt"):
     CHECKS[pid] = dict(text=text, technique=technique, ref=ref, engine=engine)
 
 
-add("C03", "Bounded symbolic model checking: one symbolic step of the real env.step jaxpr from an ARBITRARY state (so steps after LAST are included) "
+add("C03", "Bounded symbolic model checking: one symbolic step of the real env.step jaxpr from an ARBITRARY state (so steps after LAST are included), "
+    "the same obligations from the per-environment harness domain (smaller formula, decides where the arbitrary-state query is unknown), "
     "and env.reset with a symbolic key, for all 23 envs at small sizes; unsat = protocol holds for every state/action/draw at those sizes.",
     "jaxpr->SMT symbolic execution of env.step/env.reset, z3 (QF_BV+FP), counterexample replay on the real jitted code", "DESIGN.md 3/C03")
 
 T1 = "jaxpr->SMT symbolic execution of the real env.step/env.reset (z3, QF_BV+FP), inductive one-step from every valid state (bounded unrolling for BMC envs), "
-add("C01", "IR output types vs spec tree (all inputs) + bounded symbolic model checking of value bounds on reset and on one inductive step incl. terminal steps; invariant re-established.",
+add("C01", "IR output types vs spec tree (all inputs) + bounded symbolic model checking of value bounds on reset and on one inductive step incl. terminal steps; invariant and harness domain re-established "
+    "(domain-closure obligations; two-step unrolling when a successor can leave the domain).",
     T1 + "spec-bound oracle; counterexample replay on the real jitted code", "DESIGN.md 3/C01")
 add("C04", "Bounded symbolic model checking: mask returned with S' (and with reset) equals an independent rule for EVERY action; environment's reaction agrees.",
     T1 + "independent legality oracle for all actions; replay on real code", "DESIGN.md 3/C04")
@@ -37,7 +39,7 @@ add("C12", "Observation returned with S' equals an independent observer of S' fo
     T1 + "observer oracle; replay", "DESIGN.md 3/C12")
 
 T2 = "jaxpr->SMT symbolic execution (z3) of two encodings of the real code on shared symbolic inputs (equivalence queries, cofactored on control predicates), "
-add("C02", "IR-level facts for all inputs (no effects, same jaxpr+constants across instances/histories, arguments untouched) and SMT equivalence of jit/vmap(2,3)/scan(2,3) with per-call execution.",
+add("C02", "IR-level facts for all inputs (no effects, same jaxpr+constants across instances/histories, step/reset arguments and mutable constructor arguments untouched) and SMT equivalence of jit/vmap(2,3)/scan(2,3) with per-call execution.",
     "jaxpr alpha-equivalence + " + T2 + "replay on real code", "DESIGN.md 3/C02")
 add("C13", "AutoResetWrapper.step vs (env.step ; env.reset(split(key)[0])) on one shared symbolic state/action for 22 envs, both flags; fresh-key obligation under an idealised PRNG.",
     T2 + "per-field in both cofactors of LAST; replay on real code", "DESIGN.md 3/C13")
@@ -45,17 +47,17 @@ add("C14", "VmapWrapper lanes vs unwrapped env; VmapAutoResetWrapper vs VmapWrap
     T2 + "per-leaf per-pattern queries; replay on real code", "DESIGN.md 3/C14")
 add("C15", "Whole episodes through the real gym/dm_env adapter methods (conversion layer stubbed) vs native API with the documented key schedule on symbolic key/actions; MultiToSingle one symbolic step; converted spaces compared parameter-wise.",
     T2 + "replay with the unstubbed adapter", "DESIGN.md 3/C15")
-add("C16", "Path-complete symbolic execution of the real spec methods on symbolic bounds/values (engine E2) against the stated characterisation; shipped specs checked concretely.",
+add("C16", "Path-complete symbolic execution of the real spec methods on symbolic bounds/values (engine E2) against the stated characterisation; nested structures, synthetic per-element-bound conversions (gym/dm_env membership agreement at/inside/outside every bound) and shipped specs enumerated concretely.",
     "path-forking symbolic execution of jumanji.specs on z3-backed arrays + per-path z3 queries; concrete replay of every model", "DESIGN.md 3/C16", engine="pysym")
-add("C18", "z3 string/regex theory over the regex read from the repo for parse/format laws (bounded lengths); exhaustive differential of the glue model; solver-generated id pairs drive the real register/make; 25 shipped ids.",
+add("C18", "z3 string/regex theory over the regex read from the repo for parse/format laws (bounded lengths); exhaustive differential of the glue model (all probe strings up to 4 characters + well-formed ids with one foreign character glued on); solver-generated id pairs drive the real register/make; 25 shipped ids against their documented configuration.",
     "z3 strings/regex over ENV_NAME_RE (sre_parse -> z3 Re) + solver-generated id classes for the real register/make", "DESIGN.md 3/C18", engine="pysym")
-add("C19", "tree_utils traced to jaxprs with symbolic leaves and symbolic index (batch 1..5); pytrees equality helpers executed path by path on symbolic leaves.",
+add("C19", "tree_utils traced to jaxprs with symbolic leaves and symbolic index (batch 1..5); pytrees equality helpers executed path by path on symbolic leaves of equal, scalar, mismatching-shape and mixed dtypes.",
     "jaxpr->SMT symbolic execution (z3) with symbolic index + path-forking symbolic execution of testing.pytrees; replay on real code", "DESIGN.md 3/C19")
 
-add("C17", "Rubik moves pushed through the real move functions on symbolic stickers: permutation extraction (all colourings at once) vs an independent geometric model, group identities on the permutations, SMT queries for flat/unflat encodings, is_solved and sliding-tile moves.",
+add("C17", "Rubik moves pushed through the real move functions on symbolic stickers: permutation extraction (all colourings at once) vs an independent geometric model, group identities on the permutations, SMT queries for flat/unflat encodings, is_solved and sliding-tile moves; env-level solved/termination obligations on one symbolic RubiksCube step.",
     "jaxpr->SMT symbolic execution (z3) with permutation extraction + SMT queries; replay on real code", "DESIGN.md 3/C17")
 
-add("C10", "Real generators executed symbolically with contract stubs for jax.random: Inv(reset) well-formedness for every harness env, maze connectivity by an in-formula reachability fixed point with unwinding assertions, scramble/random-walk generators by loop-body induction, mines/blocks post-conditions, existential key-dependence; shipped data enumerated.",
+add("C10", "Real generators executed symbolically with contract stubs for jax.random: Inv(reset) well-formedness for every harness env, maze connectivity by an in-formula reachability fixed point with unwinding assertions, scramble/random-walk generators by loop-body induction, Connector random-walk and BinPack RandomGenerator solvability by loop-invariant summaries (base + step + use on the real code), LBF food placement at the density limit, mines/blocks post-conditions, existential key-dependence; shipped data enumerated.",
     "jaxpr->SMT symbolic execution (z3) of reset/generators with random stubs, unwinding assertions, loop-body induction; replay by real-key search", "DESIGN.md 3/C10")
 
 ALL = [f"C{i:02d}" for i in range(1, 20)]
@@ -93,7 +95,7 @@ def main():
         ],
         "checks": checks,
         "not_applicable": [{"property_id": p, "reason": PENDING} for p in ALL if p not in CHECKS],
-        "notes": "See DESIGN.md. Exit 3 = inconclusive/harness error (never reported as success or as VIOLATION).",
+        "notes": "See DESIGN.md (section 8 = as built). Exit 1 + VIOLATION line = a counterexample replayed on the real code; exit 3 = broken harness (crash, vacuous assumptions, non-reproducing counterexample), never a VIOLATION; solver unknowns / job time-outs are printed as INCONCLUSIVE, counted in evidence (obligations_unknown) and never as discharged. seeded/ holds 81 confirmed seeded changes and which checks report them.",
     }
     with open(os.path.join(HERE, "MANIFEST.json"), "w") as f:
         json.dump(m, f, indent=1)
